@@ -48,6 +48,22 @@ def run(prop, tier, seed, replay=None):
                         ops.append(o)
                     scenarios.append({"scen": 700000 + len(scenarios), "src": "model", "ops": ops})
             shutil.rmtree(d, ignore_errors=True)
+            # fixed sequences: a DAG with recorded runs is deleted, another one with recorded runs is renamed onto the freed
+            # name (the deleted DAG's empty history directory is still there), with and without the name being re-created in between
+            def A(op, d, **kw):
+                o = {"op": op, "d": d, "req": "", "step": "", "value": "", "params": ""}
+                o.update(kw)
+                return o
+            leads = [
+                [A("env-start", "b", req="r1"), A("env-finish", "b", status="finished"), A("delete", "b"),
+                 A("env-start", "a", req="r2"), A("env-finish", "a", status="failed"), A("rename", "a", value="b"), A("mark-success", "b", req="r2", step="s1")],
+                [A("env-start", "a", req="r1"), A("env-finish", "a", status="finished"), A("env-start", "b", req="r2"), A("env-crash", "b"),
+                 A("delete", "b"), A("rename", "a", value="b"), A("env-start", "b", req="r3"), A("env-finish", "b", status="finished")],
+                [A("env-start", "b", req="r1"), A("env-finish", "b", status="canceled"), A("delete", "b"), A("create", "b"), A("delete", "b"),
+                 A("env-start", "a", req="r2"), A("env-finish", "a", status="finished"), A("rename", "a", value="b"), A("rename", "b", value="c")],
+            ]
+            for ops in leads:
+                scenarios.append({"scen": 690000 + len(scenarios), "src": "lead", "ops": ops})
         scen_path = os.path.join(work, "scen.jsonl")
         with open(scen_path, "w") as f:
             for s in scenarios:
@@ -94,9 +110,13 @@ def run(prop, tier, seed, replay=None):
                 drifts += dr
         for dt in details:
             for c in dt["viol"]:
+                a = dt["a"]
+                # a refused create / save / rename / delete that nevertheless changed something (ApiObserve computes the clause
+                # under C20's name) is a half-done edit of a definition: that is C18's business too
+                if prop == "C18" and c == "C20_RefusedActionChangedSomething" and a["op"] in ("create", "save", "rename", "delete"):
+                    c = "C18_RefusedEditChangedSomething"
                 if not c.startswith(prop + "_"):
                     continue
-                a = dt["a"]
                 rep.violation({"clause": c, "op": a["op"], "running": dt["pre"]["live"].get(a["d"], "none") != "none", "resp": dt["resp"]},
                               {"scenario": by_id.get(dt["scen"]), "at": dt["i"], "action": a, "code": dt["code"], "pre": dt["pre"], "post": dt["post"],
                                "spawn": dt["spawn"], "stops": dt["stops"]})
